@@ -8,6 +8,7 @@ import (
 	"go/build"
 	"go/parser"
 	"go/token"
+	"sort"
 	"strconv"
 	"strings"
 
@@ -196,6 +197,9 @@ func c08Shared(cs c08Case) (core.Outcome, bool) {
 		if rerr != nil {
 			return fail("shared-resolver-restore-error", "file %d: %v", i+1, rerr)
 		}
+		if buf.String() != src && c08SamePathMerged(src, buf.String()) {
+			return core.Outcome{Known: c08F1, Desc: diffDesc(src, buf.String())}, true
+		}
 		if buf.String() != src {
 			return fail("pair-bytes-differ:"+cs.Reuse, "file %d (decorator resolver shared with another decorator; restorer reuse %q) does not round-trip\n%s", i+1, cs.Reuse, diffDesc(src, buf.String()))
 		}
@@ -346,6 +350,9 @@ func c08Check(cs c08Case) (core.Outcome, bool) {
 		return fail("restore-error", "restore failed: %v", err)
 	}
 	out := buf.String()
+	if out != cs.Src && c08SamePathMerged(cs.Src, out) {
+		return core.Outcome{Known: c08F1, Desc: diffDesc(cs.Src, out)}, true
+	}
 	if out != cs.Src {
 		return fail("bytes-differ:"+c01Class(cs.Src, out), "import-managed round trip is not byte-exact (%d identifiers carried a path)\n%s", withPath, diffDesc(cs.Src, out))
 	}
@@ -375,4 +382,77 @@ func c08Check(cs c08Case) (core.Outcome, bool) {
 		return core.Outcome{OK: true}, true
 	}
 	return core.Outcome{OK: true}, true
+}
+
+const c08F1 = "C08-F1-path-imported-twice-under-two-names"
+
+// c08SamePathMerged recognises known finding C08-F1 by its exact effect: the input imports one path under two
+// different ordinary names, and the output is the same program with those imports merged into one (same set of
+// import paths, each once; the same identifiers and literals in the same order outside the import declarations,
+// where a package qualifier counts as the path it is bound to).
+func c08SamePathMerged(src, out string) bool {
+	if !core.IsKnown(c08F1) {
+		return false
+	}
+	type view struct {
+		paths  []string
+		twice  bool
+		tokens []string
+	}
+	look := func(text string) (v view, ok bool) {
+		fset := token.NewFileSet()
+		af, err := parser.ParseFile(fset, "a.go", text, parser.ParseComments)
+		if err != nil {
+			return v, false
+		}
+		bound := map[string]string{}
+		names := map[string]map[string]bool{}
+		for _, is := range af.Imports {
+			p, _ := strconv.Unquote(is.Path.Value)
+			name := stdNames[p]
+			if name == "" {
+				name = p[strings.LastIndex(p, "/")+1:]
+			}
+			if is.Name != nil {
+				name = is.Name.Name
+			}
+			if name == "_" || name == "." {
+				v.paths = append(v.paths, name+p)
+				continue
+			}
+			bound[name] = p
+			if names[p] == nil {
+				names[p] = map[string]bool{}
+				v.paths = append(v.paths, p)
+			}
+			names[p][name] = true
+			if len(names[p]) > 1 {
+				v.twice = true
+			}
+		}
+		sort.Strings(v.paths)
+		for _, d := range af.Decls {
+			if gd, isGen := d.(*ast.GenDecl); isGen && gd.Tok == token.IMPORT {
+				continue
+			}
+			ast.Inspect(d, func(n ast.Node) bool {
+				switch n := n.(type) {
+				case *ast.SelectorExpr:
+					if x, isId := n.X.(*ast.Ident); isId && x.Obj == nil && bound[x.Name] != "" {
+						v.tokens = append(v.tokens, "<"+bound[x.Name]+">."+n.Sel.Name)
+						return false
+					}
+				case *ast.Ident:
+					v.tokens = append(v.tokens, n.Name)
+				case *ast.BasicLit:
+					v.tokens = append(v.tokens, n.Value)
+				}
+				return true
+			})
+		}
+		return v, true
+	}
+	a, ok1 := look(src)
+	b, ok2 := look(out)
+	return ok1 && ok2 && a.twice && !b.twice && strings.Join(a.paths, " ") == strings.Join(b.paths, " ") && strings.Join(a.tokens, " ") == strings.Join(b.tokens, " ")
 }
